@@ -177,3 +177,32 @@ func VerifC10RealFilesBytes() {
 	verifAssert(verifEqStr(got, want), "C10/file-result-depends-on-neighbour-file"+mode)
 	verifCover("C10/real-bytes/end")
 }
+
+// c05StreamTexts: multi-document streams whose documents are scalars, nulls, booleans and collections in every
+// order: the printer decides from what it printed before whether a `---` is due.
+var c05StreamTexts = []string{"~\n---\na: 1\n", "false\n---\ntrue\n", "null\n---\n~\n---\nx: 1\n", "a: 1\n---\n~\n---\nb: 2\n", "- 1\n---\nfalse\n---\n- 2\n",
+	"---\n~\n---\nfalse\n---\n0\n", "a: 1\n---\nb: 2\n---\nc: 3\n", "x\n---\ny\n", "false\n---\nfalse\n---\na: 1\n", "{}\n---\n[]\n---\n~\n", "a: 1\n---\n# only a comment\n---\nb: 2\n"}
+
+// VerifC05StreamDocuments: `yq .` on multi-document streams (finite list; yaml.v3 natively): the output holds the
+// same number of documents with the same data, whatever the documents are (null, false, scalars first or last), and
+// a second pass reproduces it.
+func VerifC05StreamDocuments() {
+	ti := verifChoice("text", len(c05StreamTexts))
+	text := c05StreamTexts[ti]
+	label := " text=" + verifItoa(int64(ti))
+	out1, ok1 := c05IdentityStrict(text)
+	verifAssert(ok1, "C05/identity-failed stream"+label)
+	if !ok1 {
+		return
+	}
+	verifObserve("out", out1)
+	d1, okd1 := c05Data(text)
+	d2, okd2 := c05Data(out1)
+	verifAssert(okd1 && okd2, "C05/output-of-the-identity-is-not-accepted-again stream"+label)
+	if okd1 && okd2 {
+		verifAssert(d1 == d2, "C05/identity-changed-the-documents stream"+label)
+	}
+	out2, ok2 := c05IdentityStrict(out1)
+	verifAssert(ok2 && out2 == out1, "C05/identity-not-idempotent stream"+label)
+	verifCover("C05/stream-docs/end")
+}
